@@ -3,6 +3,7 @@
 package xpath
 
 import (
+	"sync"
 	"errors"
 	"regexp"
 	"strconv"
@@ -119,8 +120,13 @@ func H_cache() {
 	vObserve("loads", loads)
 	vObserve("error", err != nil)
 	vFlag("nontrivial")
-	vAssertInfo(vUnlockedWrites() == "", "cache:state-written-only-under-lock", vUnlockedWrites())
-	vAssertInfo(vUnlockedReads() == "", "cache:state-read-only-under-lock", vUnlockedReads())
+	// lock discipline (symbolic executor: lockset monitor; a read lock does not protect a
+	// write). A finding is replayed natively under the race detector: see vCacheStress.
+	vAssertInfo(vUnlockedWrites() == "", "non-interference:cache-state-written-only-under-write-lock", vUnlockedWrites())
+	vAssertInfo(vUnlockedReads() == "", "non-interference:cache-state-read-only-under-lock", vUnlockedReads())
+	if !vSymbolic() {
+		vCacheStress(capacity)
+	}
 	if inFirst {
 		vAssert(loads == 0 && err == nil && v == vLoadValue(key), "cache:hit-returns-load-of-key")
 		return
@@ -143,6 +149,26 @@ func H_cache() {
 	vAssert(ok, "cache:every-entry-is-load-of-its-key")
 	stored, have := c.m[key]
 	vAssert(have && stored == vLoadValue(key), "cache:requested-key-stored")
+}
+
+// vCacheStress (native replays only): goroutines miss and hit on one shared cache; with
+// a broken lock discipline the race detector reports the unsynchronised map access.
+func vCacheStress(capacity int) {
+	if capacity > 8 {
+		capacity = 8
+	}
+	c := NewLoadingCache(func(k interface{}) (interface{}, error) { return vLoadValue(k), nil }, capacity)
+	var wg sync.WaitGroup
+	for g := 0; g < 4; g++ {
+		wg.Add(1)
+		go func(g int) {
+			defer wg.Done()
+			for i := 0; i < 200; i++ {
+				c.get(string(rune('a' + (g*7+i)%13)))
+			}
+		}(g)
+	}
+	wg.Wait()
 }
 
 // vNormReplacement is the reference reading of an XPath replacement string,
